@@ -125,7 +125,7 @@ structure ChunkCDS where
   chunk : Chunk
   deriving Repr
 
-def framesOf (vals : List Nat) : R (List CDSFrame) := vals.mapM (fun v => liftPy (GenP.frameOfInt (v : Int)))
+def framesOf (vals : List Nat) : R (List CDSFrame) := vals.mapM (fun (v : Nat) => liftPy (GenP.frameOfInt (Int.ofNat v)))
 
 /-- `CDSInterval.__init__` on a chunk parent -/
 def mkChunkCDS (x : CdsD) (ch : Chunk) : R ChunkCDS := do
